@@ -669,9 +669,11 @@ class MBXML:
     @classmethod
     def write_sfloatvar(cls, value: float, precision: int) -> bytes:
         assert precision >= 1, f"write_sfloatvar precision must be at least 1 decimal"
+        # the sign of the value, also of -0.0 (sign bit set, magnitude and fraction zero is a valid encoding)
+        negative = math.copysign(1.0, value) < 0
         int_part = int(value)
-        dec_part = int(abs(value % (1 if value >= 0 else -1)) * 128**precision)
-        integer = cls.write_sintvar(int_part, negative_zero=value < 0)
+        dec_part = int(abs(value % (-1 if negative else 1)) * 128**precision)
+        integer = cls.write_sintvar(int_part, negative_zero=negative)
         decimal = cls.write_fraction(dec_part, precision)
         return integer + decimal
 
